@@ -341,9 +341,9 @@ def _small(c):
 def prepare(tier):
     global _CASES
     base_cases = cases_for(tier)
-    used = [dict(c, used=True) for c in base_cases[:: (7 if tier == "quick" else 3)] if _small(c)]
+    used = [dict(c, used=True) for c in base_cases[:: (13 if tier == "quick" else 3)] if _small(c)]
     # Graph objects with a history: some edges added only after the object has been used by other constraints
-    for c in base_cases[:: (5 if tier == "quick" else 2)]:
+    for c in base_cases[:: (11 if tier == "quick" else 2)]:
         if "edges" in c and "shape" not in c and 2 <= len(c["edges"]) <= 5 and c.get("n", 9) <= 4:
             used.append(dict(c, grown=1))
             used.append(dict(c, grown=len(c["edges"]) - 1))
